@@ -281,12 +281,53 @@ class ProgramModel:
         else:
             cands = [f for f in cands if f.cls is None] or cands
         if unit:
-            cands = [f for f in cands if f.unit.short == unit]
+            here = [f for f in cands if f.unit.short == unit]
+            if not here:
+                # not defined in that module any more: the module may import it, or keep the old name as an alias of a
+                # function that moved (to another module, into a class as a static method, under a new name)
+                for u in self.units.values():
+                    if u.short == unit and not u.env:
+                        moved = self._follow_alias(u, qual_or_name.split(".")[-1], 0)
+                        if moved is not None:
+                            return moved
+                uniq = [f for f in cands if not f.unit.env]
+                if len(uniq) == 1 and "." not in qual_or_name:
+                    return uniq[0]          # the only function of that name in the package
+            cands = here
         pk = [f for f in cands if not f.unit.env] or cands
         if not pk:
             raise AnalysisError("PM", f"anchor function vanished: {qual_or_name}"
                                       + (f" in {unit}" if unit else ""))
         return pk[0]
+
+    def _follow_alias(self, u: Unit, name: str, depth: int) -> Optional[FuncInfo]:
+        if depth > 4:
+            return None
+        q = f"{u.mod}.{name}"
+        if q in self.functions:
+            return self.functions[q]
+        tgt = u.imports.get(name)
+        if tgt:
+            if tgt in self.functions:
+                return self.functions[tgt]
+            modq, nm = tgt.rsplit(".", 1) if "." in tgt else ("", tgt)
+            if modq in self.units:
+                return self._follow_alias(self.units[modq], nm, depth + 1)
+            cands = [f for f in self.func_by_name.get(nm, []) if f.cls is None and not f.unit.env]
+            if len(cands) == 1:
+                return cands[0]
+        val = self.module_assign(u, name)
+        if isinstance(val, ast.Name):
+            return self._follow_alias(u, val.id, depth + 1)
+        if isinstance(val, ast.Attribute) and isinstance(val.value, ast.Name):
+            base = val.value.id
+            bt = u.imports.get(base)
+            if bt and bt in self.units:                     # module.attr
+                return self._follow_alias(self.units[bt], val.attr, depth + 1)
+            for ci in self.class_by_name.get(base, []) + ([self.classes[bt]] if bt in self.classes else []):
+                if val.attr in ci.methods:                  # Class.method (a static method kept under the old name)
+                    return ci.methods[val.attr]
+        return None
 
     def has_func(self, name: str, unit: Optional[str] = None) -> bool:
         try:
